@@ -345,7 +345,7 @@ class Interner:
 # --------------------------------------------------------------------------
 
 class Check:
-    def __init__(self, pid, tier, seed):
+    def __init__(self, pid, tier, seed, keep_replays=False):
         self.pid, self.tier, self.seed = pid, tier, seed
         self.rng = random.Random(seed)
         self.t0 = time.time()
@@ -358,7 +358,7 @@ class Check:
         self.broken = []          # (what no longer checks, detail)
         self.notes = []
         os.makedirs(REPLAY, exist_ok=True)
-        for fn in os.listdir(REPLAY):       # replay files of earlier runs of this property
+        for fn in ([] if keep_replays else os.listdir(REPLAY)):   # replay files of earlier runs of this property
             if fn.startswith(pid + "-"):
                 os.remove(os.path.join(REPLAY, fn))
         kf = os.path.join(VERIF, "known_findings.json")
